@@ -257,12 +257,17 @@ class ProbabilityBasedLossFunction(LossFunction):
         vecB = np.copy(qt.calc_vecB())
         self._num_var = qt.num_variables
         num_func = qt.num_schedules
-        size_prob_dist = int(matA.shape[0] / num_func)
 
+        # rows of matA / vecB are stacked schedule by schedule; the numbers of outcomes may differ
         func_prob_dists = []
+        start = 0
         for index in range(num_func):
-            func = self._generate_func_prob_dist(matA, vecB, size_prob_dist, index)
+            stop = start + qt.num_outcomes(index)
+            func = self._generate_func_prob_dist(
+                matA[start:stop], vecB[start:stop], stop - start, 0
+            )
             func_prob_dists.append(func)
+            start = stop
         self.set_func_prob_dists(func_prob_dists)
 
     def _generate_func_gradient_prob_dist(
@@ -289,12 +294,16 @@ class ProbabilityBasedLossFunction(LossFunction):
         """
         matA = np.copy(qt.calc_matA())
         num_func = qt.num_schedules
-        size_prob_dist = int(matA.shape[0] / num_func)
 
         func_gradient_prob_dists = []
+        start = 0
         for index in range(num_func):
-            func = self._generate_func_gradient_prob_dist(matA, size_prob_dist, index)
+            stop = start + qt.num_outcomes(index)
+            func = self._generate_func_gradient_prob_dist(
+                matA[start:stop], stop - start, 0
+            )
             func_gradient_prob_dists.append(func)
+            start = stop
         self.set_func_gradient_prob_dists(func_gradient_prob_dists)
 
     def _generate_func_hessian_prob_dist(self, size_prob_dist: int, index: int):
@@ -313,13 +322,13 @@ class ProbabilityBasedLossFunction(LossFunction):
         qt : StandardQTomography
             StandardQTomography to set the Hessian of probability distributions.
         """
-        matA = np.copy(qt.calc_matA())
         num_func = qt.num_schedules
-        size_prob_dist = int(matA.shape[0] / num_func)
 
         func_hessian_prob_dists = []
         for index in range(num_func):
-            func = self._generate_func_hessian_prob_dist(size_prob_dist, index)
+            func = self._generate_func_hessian_prob_dist(
+                qt.num_outcomes(index), index
+            )
             func_hessian_prob_dists.append(func)
         self.set_func_hessian_prob_dists(func_hessian_prob_dists)
 
